@@ -179,7 +179,7 @@ def iso_eof_ref(d, alpha):
 @st.composite
 def _strat_fam(draw, tier='quick'):
     fam = draw(st.sampled_from(['werner', 'werner', 'isotropic', 'isotropic', 'horodecki2x4', 'horodecki3x3', 'antoine']))
-    d = draw(st.integers(2, 5))
+    d = draw(st.one_of(st.integers(2, 5), st.integers(2, 10)))  # moderate dimensions: the end-point formulas round differently for every d
     u = draw(st.one_of(st.sampled_from([0.0, 1.0, 0.5]), st.floats(0, 1), st.sampled_from(['thr', 'thr+', 'thr-', 'thr2', 'thr2+'])))
     return dict(fam=fam, d=d, u=u, prng=draw(st.integers(0, 2 ** 31)))
 
